@@ -34,6 +34,9 @@ class TZif:
         if ver in (b"2", b"3", b"4"):
             off += time * 4 + time + typ * 6 + char + leap * 8 + isstd + isutc
             ver2, isutc, isstd, leap, time, typ, char = _hdr(data, off)
+            if ver2 != ver:
+                # RFC 8536: both headers carry the same version; anything else is not a valid file
+                raise TZifError("second header version differs")
             off += 44
             tsz = 8
         elif ver != b"\0":
